@@ -430,7 +430,7 @@ func runC43(x *simkit.Exec) {
 			s.Go(fmt.Sprintf("client%d", ci), func() {
 				for _, r := range list {
 					r.got = do(front, r.clientReq)
-					s.Note("done %s: %s", r.tag.id, r.got.brief())
+					s.Note("done %s: %s", r.tag.id, r.got.class())
 				}
 			})
 		}
